@@ -103,17 +103,17 @@ Unbound(s, p) == s.pref[p] = None /\ \A c \in Cid : ~InSeq(p, s.cref[c].pids)
 BindingOf(s, p) == [pref |-> s.pref[p],
                     inlists |-> {c \in Cid : InSeq(p, s.cref[c].pids)}]
 
-\* after a failed store/tag the pid is unbound and can be stored again at once
-\* (an immediate retry behaves as the contract says for the state the failure left),
-\* or its earlier binding is intact
+\* after a failed store/tag of an unbound pid the pid is unbound and can be stored again at
+\* once (an immediate retry behaves as the contract says for the state the failure left);
+\* if the pid was bound before, its earlier binding is intact
 I_C13_NoHalfBound == IsFault =>
   Judge("C13_NoHalfBound",
         (F.call.op \in {"store", "tag"} /\ F.res.cls # "ok") =>
-          \/ /\ Unbound(F.post, F.call.pid)
-             /\ WellFormed(F.post)
-             /\ F.retry.cls = Apply(NoJunk(F.post), F.call).res.cls
-          \/ /\ F.pre.pref[F.call.pid] # None
-             /\ BindingOf(F.post, F.call.pid) = BindingOf(F.pre, F.call.pid))
+          IF F.pre.pref[F.call.pid] # None
+            THEN BindingOf(F.post, F.call.pid) = BindingOf(F.pre, F.call.pid)
+            ELSE /\ Unbound(F.post, F.call.pid)
+                 /\ WellFormed(F.post)
+                 /\ F.retry.cls = Apply(NoJunk(F.post), F.call).res.cls)
 
 \* a call that failed did fail: it raised an error class, not a silent wrong answer
 I_C13_ErrorSurfaces == IsFault =>
